@@ -508,7 +508,7 @@ func main() {
 	hxlib.Main(hxlib.Spec{
 		ID: "C33",
 		Rule: "PacketPool with 1-5 buckets of 0-6 entries (and the production 20x500): random Put/Contains/Clear streams over small hash alphabets, and a hash re-put after W-2..W+1 distinct accepted hashes (W=(buckets-1)*len) from random fill states; onPacket on a PeerToPeer with stub peers: every (peer role flags 0-3, source = peer / other / self, ttl 0/1/2/255, dest 0/1/2/7/255) combination plus undetermined connection type, unannounced protocol, missing callback, immediate duplicate; the same broadcasts relayed by 2-4 peers in random orders with distinct filler packets around the pool window; the relay decision for all (isRelay, ttl, dest); non-trivial = every case; distinct = distinct Coq case term",
-		Shard: 40,
+		Shard: 80,
 		Gen:   gen, Replay: replay,
 	})
 }
